@@ -65,6 +65,7 @@ type Contract struct {
 	LoopDecr  map[int][]*Expr
 	LoopMod   map[int][]*Expr
 	Sites     []*SiteClause
+	SiteCount map[string]int // sites <match> = N: the function has exactly N instructions the match selects
 	ModEach   []*ModEach
 	Lets      []struct {
 		Name string
@@ -336,7 +337,7 @@ func findDefEq(s string) int {
 func parseContract(key string, clauses []string, where string) (*Contract, error) {
 	c := &Contract{Key: key, LoopInv: map[int][]*Clause{}, LoopDecr: map[int][]*Expr{}, LoopMod: map[int][]*Expr{}, Where: where, Props: map[string]bool{}, SafetyProps: map[string]bool{}}
 	// clauses may themselves have been continued: a clause starts with a keyword
-	kw := regexp.MustCompile(`^(requires|ensures|modifies|allocates|pure|trusted|decreases|loop|maypanic|let|safety|formals|results|witness|replay|site|opaque|perreturn|exitghost|noframe|termination)\b`)
+	kw := regexp.MustCompile(`^(requires|ensures|modifies|allocates|pure|trusted|decreases|loop|maypanic|let|safety|formals|results|witness|replay|sites|site|opaque|perreturn|exitghost|noframe|termination)\b`)
 	var merged []string
 	for _, l := range clauses {
 		l = strings.TrimSpace(l)
@@ -463,6 +464,20 @@ func parseContract(key string, clauses []string, where string) (*Contract, error
 				Name string
 				E    *Expr
 			}{strings.TrimSpace(kv[0]), e})
+		case "sites":
+			// sites <match> = <n>
+			f := strings.SplitN(rest, "=", 2)
+			if len(f) != 2 {
+				return nil, fmt.Errorf("%s: bad sites clause %q", w, l)
+			}
+			n, err := strconv.Atoi(strings.TrimSpace(f[1]))
+			if err != nil {
+				return nil, fmt.Errorf("%s: bad sites clause %q", w, l)
+			}
+			if c.SiteCount == nil {
+				c.SiteCount = map[string]int{}
+			}
+			c.SiteCount[strings.TrimSpace(f[0])] = n
 		case "site":
 			// site <callee-substring>#<k> assert [tags] <expr>   |   site <callee-substring>#<k> ghost <lvalue> = <expr>
 			f := strings.SplitN(rest, " ", 3)
